@@ -241,3 +241,169 @@ func init() {
 			"b64dec": "Bytes → (Bytes × Option String)", "isSpace": "Int → Bool", "shaSum": "Bytes → Bytes → Bytes"},
 	})
 }
+
+// World-mode regenerations of the tlog functions that read through a HashReader / TileReader whose reads change the
+// outside world (the sumdb client's tileReader reads through the network and the on-disk cache): the reader calls are
+// abstract world functions, everything else is the code of FnTlog / FnTile.
+func init() {
+	allChecked := map[string]bool{"TreeHash": true, "ProveTree": true, "ProveRecord": true, "tileHashReader.ReadHashes": true}
+	g2lUnits = append(g2lUnits, &g2lUnit{
+		out: "FnTlogW", ns: "TlogW", pkgDir: "sumdb/tlog",
+		imports:    []string{"ModVerif.Generated.FnTlog"},
+		opens:      []string{"ModVerif.Generated.Tlog"},
+		fns:        []string{"TreeHash", "ProveTree", "ProveRecord"},
+		checked:    allChecked,
+		absTypes:   map[string]string{"Hash": "H"},
+		extraTypeVars: []string{"W"},
+		absFuncs:   map[string]string{"NodeHash": "node"},
+		absVars:    map[string]string{"emptyHash": "empty"},
+		ifaces:     map[string]string{"HashReader": "Unit"},
+		worldFns:   map[string]string{"TreeHash": "W", "ProveTree": "W", "ProveRecord": "W"},
+		worldCalls: map[string]string{"r.ReadHashes": "readHashes:M", "h.ReadHashes": "readHashes:M"},
+		absSigs:    map[string]string{"node": "H → H → H", "empty": "H", "readHashes": "List Int → W → M ((List H × Option String) × W)"},
+	})
+	g2lUnits = append(g2lUnits, &g2lUnit{
+		out: "FnTileW", ns: "TileW", pkgDir: "sumdb/tlog",
+		imports:     []string{"ModVerif.Generated.FnTlog", "ModVerif.Generated.FnTile"},
+		opens:       []string{"ModVerif.Generated.Tlog", "ModVerif.Generated.Tile"},
+		structNames: []string{"tileHashReader"},
+		noEq:        map[string]bool{"tileHashReader": true},
+		fns:         []string{"tileHashReader.ReadHashes"},
+		checked:     allChecked,
+		absTypes:    map[string]string{"Hash": "H"},
+		extraTypeVars: []string{"W"},
+		paramStructs:  []string{"Tree"},
+		absFuncs:    map[string]string{"NodeHash": "node", "copy->Hash": "ofBytes", "Hash[:]": "toBytes"},
+		ifaces:      map[string]string{"TileReader": "Unit", "HashReader": "Unit"},
+		worldFns:    map[string]string{"tileHashReader.ReadHashes": "W"},
+		worldCalls:  map[string]string{"r.tr.ReadTiles": "readTiles:M", "r.tr.SaveTiles": "saveTiles:M", "r.tr.Height": "height:M"},
+		absSigs: map[string]string{"node": "H → H → H", "ofBytes": "Bytes → H", "toBytes": "H → Bytes",
+			"readTiles": "List Tile → W → M ((List Bytes × Option String) × W)", "saveTiles": "List Tile → List Bytes → W → M (Unit × W)", "height": "W → M (Int × W)"},
+	})
+}
+
+func init() {
+	worldT := "(CW σ H)"
+	wf := map[string]string{}
+	for _, n := range []string{"Client.init", "Client.initWork", "Client.skip", "Client.Lookup", "Client.mergeLatest", "Client.mergeLatestMem", "Client.checkTrees",
+		"Client.checkRecord", "Client.readTile", "Client.markTileSaved", "Client.tileCacheKey", "Client.tileRemotePath",
+		"tileReader.Height", "tileReader.ReadTiles", "tileReader.SaveTiles"} {
+		wf[n] = worldT
+	}
+	g2lUnits = append(g2lUnits, &g2lUnit{
+		out: "FnClient", ns: "SumdbClient", pkgDir: "sumdb",
+		imports: []string{"ModVerif.Basic.GoRtClient", "ModVerif.Basic.GoRtStrings", "ModVerif.Generated.FnTlog", "ModVerif.Generated.FnTile", "ModVerif.Generated.FnTlogNote",
+			"ModVerif.Generated.FnNote", "ModVerif.Generated.FnNoteKey", "ModVerif.Generated.FnModule", "ModVerif.Generated.FnTlogW", "ModVerif.Generated.FnTileW"},
+		opens:         []string{"ModVerif.Generated.Tile", "ModVerif.Generated.Note"},
+		worldObjs:     map[string]bool{"Client": true, "tileReader": true},
+		worldFns:      wf,
+		extraTypeVars: []string{"σ"},
+		absTypes:      map[string]string{"Hash": "H"},
+		paramStructs:  []string{"Tree"},
+		anyType:       "Cached",
+		localTypes:    map[string]string{"cached": "Cached"},
+		ignoreRecover: true,
+		lambdaClosures: true,
+		ignoreCalls:   map[string]bool{"Lock": true, "Unlock": true, "Add": true, "Done": true, "Wait": true, "Log": true},
+		onceCalls:     map[string]string{"c.initOnce.Do": "initDone"},
+		cacheCalls:    map[string]string{"c.record.Do": "record", "c.tileCache.Do": "tileCache"},
+		ifaceStructs:  map[string]string{"Verifier": ""},
+		foreignTypes: map[string]string{"tlog.Tile": "Tile", "tlog.Tree": "(Tree H)", "tlog.HashReader": "(Tree H)", "tlog.TreeProof": "(List H)", "sync.WaitGroup": "Unit",
+			"note.Verifiers": "(Bytes → Int → (Verifier × Option String))", "note.Verifier": "Verifier", "note.Note": "Note"},
+		fns: []string{"Client.tileCacheKey", "Client.tileRemotePath", "Client.markTileSaved", "Client.readTile", "tileReader.Height", "tileReader.ReadTiles", "tileReader.SaveTiles",
+			"Client.checkTrees", "Client.checkRecord", "Client.mergeLatestMem", "Client.mergeLatest", "Client.initWork", "Client.init", "Client.skip", "Client.Lookup"},
+		worldCalls: map[string]string{"c.ops.ReadRemote": "E.readRemote", "c.ops.ReadCache": "E.readCache", "c.ops.ReadConfig": "E.readConfig",
+			"c.ops.WriteConfig": "E.writeConfig", "c.ops.WriteCache": "E.writeCache", "c.ops.SecurityError": "E.securityError",
+			"tlog.TreeHash": "treeHashW E fuel:M", "tlog.ProveTree": "proveTreeW E fuel:M", "thr.ReadHashes": "readHashesW E fuel:M:recv",
+			"tlog.TileHashReader(latest,&c.tileReader).ReadHashes": "readHashesW E fuel latest:M"},
+		stdCalls: map[string]stdFn{"tlog.TileHashReader": {"tileHashReaderX", false}, "note.VerifierList": {"verifierList1", false},
+			"bytes.Replace": {"replaceAll", false}, "tile.Path": {"tilePathX fuel", true}},
+		absFuncs: map[string]string{"tlog.RecordHash": "E.recordHash", "Hash.String": "E.hashString"},
+		externs: map[string]string{"tlog.ParseRecord": "parseRecordX", "tlog.ParseTree": "parseTreeX E", "tlog.CheckTree": "checkTreeX E", "tlog.StoredHashIndex": "storedHashIndexX",
+			"note.Open": "noteOpenX E", "note.NewVerifier": "newVerifierX E", "module.EscapePath": "escapePathX E", "module.EscapeVersion": "escapeVersionX E",
+			"module.MatchPrefixPatterns": "matchPrefixPatternsX E"},
+		externFx: map[string]bool{"tlog.ParseRecord": true, "tlog.ParseTree": true, "tlog.CheckTree": true, "tlog.StoredHashIndex": true, "note.Open": true, "note.NewVerifier": true,
+			"module.EscapePath": true, "module.EscapeVersion": true, "module.MatchPrefixPatterns": true},
+		externFue: map[string]bool{"tlog.ParseRecord": true, "tlog.CheckTree": true, "tlog.StoredHashIndex": true, "note.Open": true, "module.EscapePath": true,
+			"module.EscapeVersion": true, "module.MatchPrefixPatterns": true},
+		absSigs:  map[string]string{"E": "ClientEnv σ H"},
+		preamble: clientPreamble,
+		midamble: map[string]string{"Client.checkTrees": clientGlue},
+	})
+}
+
+const clientPreamble = `/-- the state of the one `+"`Client`"+` object and of the world behind its `+"`ClientOps`"+` (state `+"`σ`"+`): fields of the Go struct, the
+    two parCache tables as association lists, `+"`initOnce`"+` as a flag -/
+structure CW (σ H : Type) where
+  s : σ
+  didLookup : Int
+  initDone : Bool
+  initErr : Option String
+  name : Bytes
+  verifiers : Bytes → Int → (Verifier × Option String)
+  tileHeight : Int
+  nosumdb : Bytes
+  record : List (Bytes × Cached)
+  tileCache : List (Tile × Cached)
+  latest : Tree H
+  latestMsg : Bytes
+  tileSaved : List (Tile × Bool)
+
+/-- everything outside client.go the client talks to: the ClientOps methods as functions on the world, and the abstract
+    functions of the packages it calls -/
+structure ClientEnv (σ H : Type) where
+  readRemote : Bytes → CW σ H → ((Bytes × Option String) × CW σ H)
+  readCache : Bytes → CW σ H → ((Bytes × Option String) × CW σ H)
+  readConfig : Bytes → CW σ H → ((Bytes × Option String) × CW σ H)
+  writeConfig : Bytes → Bytes → Bytes → CW σ H → (Option String × CW σ H)
+  writeCache : Bytes → Bytes → CW σ H → (Unit × CW σ H)
+  securityError : Bytes → CW σ H → (Unit × CW σ H)
+  node : H → H → H
+  empty : H
+  recordHash : Bytes → H
+  ofBytes : Bytes → H
+  toBytes : H → Bytes
+  hashString : H → Bytes
+  b64dec : Bytes → (Bytes × Option String)
+  isSpace : Int → Bool
+  edVerify : Bytes → Bytes → Bytes → Bool
+  shaSum : Bytes → Bytes → Bytes
+  isLetter : Int → Bool
+  equalFold : Bytes → Bytes → Bool
+  pathMatch : Bytes → Bytes → (Bool × Option String)
+
+section
+variable {σ H : Type} [DecidableEq H] [Inhabited H]
+def parseRecordX (fuel : Nat) (msg : Bytes) := ModVerif.Generated.TlogNote.ParseRecord fuel msg
+def parseTreeX (E : ClientEnv σ H) (text : Bytes) : M (Tree H × Option String) := do
+  let (t, e) ← ModVerif.Generated.TlogNote.ParseTree E.b64dec E.ofBytes text
+  pure ({ N := t.N, Hash := t.Hash }, e)
+def checkTreeX (E : ClientEnv σ H) (fuel : Nat) (p : List H) (t : Int) (th : H) (n : Int) (h : H) := ModVerif.Generated.Tlog.CheckTree E.node fuel p t th n h
+def storedHashIndexX (fuel : Nat) (level n : Int) := ModVerif.Generated.Tlog.StoredHashIndex fuel level n
+def noteOpenX (E : ClientEnv σ H) (fuel : Nat) (msg : Bytes) (known : Bytes → Int → (Verifier × Option String)) := ModVerif.Generated.Note.Open E.b64dec E.isSpace fuel msg known
+def newVerifierX (E : ClientEnv σ H) (vkey : Bytes) := ModVerif.Generated.NoteKey.NewVerifier E.b64dec E.edVerify E.isSpace E.shaSum vkey
+def escapePathX (E : ClientEnv σ H) (fuel : Nat) (p : Bytes) := ModVerif.Generated.Module.EscapePath E.equalFold E.isLetter fuel p
+def escapeVersionX (E : ClientEnv σ H) (fuel : Nat) (v : Bytes) := ModVerif.Generated.Module.EscapeVersion E.equalFold E.isLetter fuel v
+def matchPrefixPatternsX (E : ClientEnv σ H) (fuel : Nat) (globs target : Bytes) := ModVerif.Generated.Module.MatchPrefixPatterns E.pathMatch fuel globs target
+def tilePathX (fuel : Nat) (t : Tile) := ModVerif.Generated.Tile.Tile_Path fuel t
+/-- tlog.TileHashReader(tree, &c.tileReader): the only TileReader is the client's, so the reader is its tree -/
+def tileHashReaderX (tree : Tree H) (_ : Unit) : Tree H := tree
+/-- note.VerifierList(v): the one-element list -/
+def verifierList1 (v : Verifier) : Bytes → Int → (Verifier × Option String) :=
+  fun name hash => if name = v.Name ∧ hash = v.KeyHash then (v, none) else (default, some "UnknownVerifierError")
+end
+`
+
+const clientGlue = `section
+variable {σ H : Type} [DecidableEq H] [Inhabited H]
+/-- tlog.TileHashReader(tree, &c.tileReader).ReadHashes(indexes): the regenerated tileHashReader.ReadHashes (FnTileW) reading
+    through the regenerated methods of the client's tileReader -/
+def readHashesW (E : ClientEnv σ H) (fuel : Nat) (tree : Tree H) (indexes : List Int) (world : CW σ H) :=
+  ModVerif.Generated.TileW.tileHashReader_ReadHashes (W := CW σ H) (fun w => pure (tileReader_Height w)) E.node E.ofBytes
+    (fun ts w => tileReader_ReadTiles E fuel ts w) (fun ts d w => tileReader_SaveTiles E fuel ts d w) fuel { tree := tree, tr := () } indexes world
+def treeHashW (E : ClientEnv σ H) (fuel : Nat) (n : Int) (tree : Tree H) (world : CW σ H) :=
+  ModVerif.Generated.TlogW.TreeHash (W := CW σ H) E.empty E.node (fun idx w => readHashesW E fuel tree idx w) fuel n () world
+def proveTreeW (E : ClientEnv σ H) (fuel : Nat) (t n : Int) (tree : Tree H) (world : CW σ H) :=
+  ModVerif.Generated.TlogW.ProveTree (W := CW σ H) E.node (fun idx w => readHashesW E fuel tree idx w) fuel t n () world
+end
+`
